@@ -12,7 +12,7 @@ class DeepPart:
     classes = {2: "stack-exhaustion-on-deep-nesting"}
     rule = ""
     assumptions = []
-    DEPTHS = [1, 2, 17, 100, 500, 999, 2000, 5000, 20000, 100000]
+    DEPTHS = [1, 2, 17, 100, 300, 500, 999, 2000, 5000, 20000, 100000]      # below 400 the process must survive
 
     def __init__(self, pid, sub, cmd, prefix, suffix, what):
         self.id, self.harness_sub, self.cmd, self.prefix, self.suffix = pid, sub, cmd, prefix, suffix
@@ -40,7 +40,7 @@ class DeepPart:
 
     def corpus(self):
         # 400000 levels: the witness of the known finding (the process dies: native stack exhausted)
-        return [self.mk(10, "list"), self.mk(300, "dict"), self.mk(900, "list"), self.mk(400000, "list")]
+        return [self.mk(10, "list"), self.mk(300, "dict"), self.mk(350, "list"), self.mk(400000, "list")]
 
     def gen(self, rng, tier):
         k = {"quick": 12, "thorough": 60, "search": 30}.get(tier, 12)
